@@ -981,9 +981,9 @@ func (sw *SlidingWindow) triggerLateUpdateLocked(slot *types.TimeSlot) {
 	// Re-acquire lock to update statistics
 	sw.mu.Lock()
 	if sent {
-		sw.sentCount++
+		atomic.AddInt64(&sw.sentCount, 1)
 	} else {
-		sw.droppedCount++
+		atomic.AddInt64(&sw.droppedCount, 1)
 	}
 }
 
